@@ -27,6 +27,7 @@ MAX_BLOCKS = 120
 MAX_PASSES = 3
 
 _words = None
+FORCE_INLINE = set()    # selftest/inline_sim.py: helpers to inline and delete regardless of the criteria below
 REPARENT = {}       # inlined helper -> (first) function it was inlined into; consulted by spec.common.enclosing_fn
 
 
@@ -97,6 +98,20 @@ def detect_renames(j):
             back = [x for x in vs if ref["fns"][x].get("sig") == sig]
             if len(cands) == 1 and len(back) == 1:
                 fn_ren[cands[0]] = v
+    # moved: a method became a free function of the enclosing module (or the reverse) under the same name
+    for sc, vs in vanished.items():
+        for v in vs:
+            if v in fn_ren.values():
+                continue
+            if "::" not in v:
+                continue
+            name = v.rsplit("::", 1)[1]
+            mod = sc.rsplit("::", 1)[0] if "::" in sc else sc
+            cands = [n for n in cur if n not in ref["fns"] and n not in fn_ren and "::" in n and n.rsplit("::", 1)[1] == name and
+                     (_scope(n) == mod or _scope(_scope(n)) == sc or _scope(n).rsplit("::", 1)[0] == sc)]
+            if len(cands) == 1 and sum(1 for x in ref["fns"] if x not in cur and x.rsplit("::", 1)[1] == name and
+                                       (_scope(x) == sc)) == 1:
+                fn_ren[cands[0]] = v
     fld_ren = {}
     for a, rf in ref["adts"].items():
         d = j["adts"].get(a)
@@ -117,6 +132,83 @@ def detect_renames(j):
         if m:
             fld_ren[a] = m
     return fn_ren, fld_ren
+
+
+def _closure_fp(f):
+    out = []
+    for blk in f["body"]["blocks"]:
+        t = blk["term"]
+        if t["k"] == "call" and "k" in t["func"] and "fn" in t["func"]["k"]:
+            e = t.get("exp")
+            if e and any(w in e for w in ("trace", "info", "event", "span", "valueset", "level_enabled", "callsite", "dbg",
+                                          "eprintln", "debug", "enabled", "__tracing_log", "metadata", "fieldset",
+                                          "__macro_support", "if_log_enabled")):
+                continue
+            out.append(t["func"]["k"]["fn"])
+    return sorted(out)
+
+
+def _sim(a, b):
+    """Jaccard similarity of two multisets of callee paths."""
+    from collections import Counter
+    ca, cb = Counter(a), Counter(b)
+    inter = sum((ca & cb).values())
+    union = sum((ca | cb).values())
+    return 1.0 if union == 0 else inter / union
+
+
+def detect_closure_renumbering(j):
+    """Closures are numbered in source order inside their parent, so adding or removing a closure shifts the numbers of the
+    others.  The closures of each parent are matched with the reference closures of that parent by what they call; a closure
+    whose best match carries another number gets that number back, new closures get numbers the reference does not use."""
+    refc = reference().get("closures") or {}
+    fns = j["fns"]
+    cur_by_parent = defaultdict(list)
+    for k, f in fns.items():
+        if f["kind"] == "Closure" and f.get("parent_fn"):
+            cur_by_parent[f["parent_fn"]].append(k)
+    ref_by_parent = defaultdict(list)
+    for k in refc:
+        i = k.rfind("::{closure#")
+        ref_by_parent[k[:i]].append(k)
+    ren = {}
+    for parent, cks in cur_by_parent.items():
+        # top-down: a renumbered parent closure carries its nested closures along via the prefix rule of apply_renames
+        rks = ref_by_parent.get(parent, [])
+        if not rks:
+            continue
+        cfp = {k: _closure_fp(fns[k]) for k in cks}
+        if set(cks) == set(rks) and all(_sim(cfp[k], refc[k]) >= 0.5 for k in cks):
+            continue
+        def sim2(c, r):
+            if not cfp[c] and not refc[r]:
+                return 1.0 if c == r else 0.0       # closures that call nothing are only matched with themselves
+            return _sim(cfp[c], refc[r])
+        pairs = sorted(((sim2(c, r), c, r) for c in cks for r in rks), key=lambda x: (-x[0], 0 if x[1] == x[2] else 1, x[1], x[2]))
+        used_c, used_r, m = set(), set(), {}
+        for sim_, c, r in pairs:
+            if sim_ < 0.5:
+                break
+            if c in used_c or r in used_r:
+                continue
+            m[c] = r
+            used_c.add(c)
+            used_r.add(r)
+        # a closure without a counterpart keeps its number unless a matched closure now carries that number
+        claimed = set(m.values())
+        taken = claimed | set(cks) | set(rks)
+        nxt = 0
+        for c in sorted(cks):
+            if c in m or c not in claimed:
+                continue
+            while "%s::{closure#%d}" % (parent, 100 + nxt) in taken:
+                nxt += 1
+            m[c] = "%s::{closure#%d}" % (parent, 100 + nxt)
+            taken.add(m[c])
+        for c, r in m.items():
+            if c != r:
+                ren[c] = r
+    return ren
 
 
 def apply_renames(j, fn_ren, fld_ren):
@@ -178,13 +270,98 @@ def apply_renames(j, fn_ren, fld_ren):
     j["renamed"] = dict(fns=fn_ren, fields=fld_ren)
 
 
+def _remap_locals_map(node, m):
+    if isinstance(node, dict):
+        if "l" in node and "p" in node and isinstance(node["l"], int) and isinstance(node["p"], list):
+            node["l"] = m.get(node["l"], node["l"])
+            for pr in node["p"]:
+                if isinstance(pr, dict) and "idx" in pr:
+                    pr["idx"] = m.get(pr["idx"], pr["idx"])
+            return
+        for v in node.values():
+            _remap_locals_map(v, m)
+    elif isinstance(node, list):
+        for v in node:
+            _remap_locals_map(v, m)
+
+
+def restore_param_order(j):
+    """A private function whose parameters were merely re-ordered (same names and types as in the reference tree, different
+    positions) is put back into the reference order: its parameter locals are renumbered and the argument lists of all its
+    direct call sites are permuted.  Rules that address an argument by position are then indifferent to the change."""
+    ref = reference()["fns"]
+    fns = j["fns"]
+    done = {}
+    for k, f in fns.items():
+        r = ref.get(k)
+        if not r or "params" not in r or f["kind"] not in ("Fn", "AssocFn"):
+            continue
+        body = f["body"]
+        n = body["arg_count"]
+        cur = [[body["locals"][l].get("name") or "", body["locals"][l]["ty"]] for l in range(1, n + 1)]
+        want = r["params"]
+        if cur == want or len(cur) != len(want) or n < 2:
+            continue
+        # match by (name, type) if that is a bijection, else by type alone if types are pairwise distinct
+        def bij(keyf):
+            ck = [keyf(x) for x in cur]
+            wk = [keyf(x) for x in want]
+            if len(set(ck)) != len(ck) or sorted(ck) != sorted(wk):
+                return None
+            return [wk.index(x) for x in ck]          # current position -> reference position
+        perm = bij(lambda x: (x[0], x[1])) or bij(lambda x: x[1])
+        if perm is None or perm == list(range(n)):
+            continue
+        # renumber parameter locals: current local (i+1) becomes local (perm[i]+1)
+        m = {i + 1: perm[i] + 1 for i in range(n)}
+        newlocals = list(body["locals"])
+        for i in range(n):
+            newlocals[perm[i] + 1] = body["locals"][i + 1]
+        body["locals"] = newlocals
+        for blk in body["blocks"]:
+            _remap_locals_map(blk["stmts"], m)
+            _remap_locals_map(blk["term"], m)
+        for un in body.get("upvar_names", []):
+            _remap_locals_map(un, m)
+        # permute the arguments at every direct call site
+        for k2, f2 in fns.items():
+            for blk in f2["body"]["blocks"]:
+                t = blk["term"]
+                if t["k"] == "call" and "k" in t["func"] and t["func"]["k"].get("fn") == k and len(t["args"]) == n:
+                    na = [None] * n
+                    for i in range(n):
+                        na[perm[i]] = t["args"][i]
+                    t["args"] = na
+        f["sig"] = r.get("sig", f.get("sig"))
+        done[k] = perm
+    j.setdefault("renamed", {})["param_order"] = done
+    return done
+
+
 def normalize(j):
     """All normalisations, in order: undo renames, then inline unknown private helpers."""
+    if j.get("crate") != "loom":
+        # the positive-control crate: nothing to compare with; its tiny functions must stay as written
+        j["renamed"] = dict(fns={}, fields={})
+        j["desugared"] = {}
+        j["inlined"] = {}
+        return {}
     fn_ren, fld_ren = detect_renames(j)
     if fn_ren or fld_ren:
         apply_renames(j, fn_ren, fld_ren)
     else:
         j["renamed"] = dict(fns={}, fields={})
+    cl_ren = detect_closure_renumbering(j)
+    if cl_ren:
+        keep = j["renamed"]
+        apply_renames(j, cl_ren, {})
+        keep["closures"] = cl_ren
+        j["renamed"] = keep
+    restore_param_order(j)
+    if not os.environ.get("VERIF_NO_DESUGAR"):
+        desugar_combinators(j)
+    else:
+        j["desugared"] = {}
     return inline_helpers(j)
 
 
@@ -218,6 +395,24 @@ def _private_to_module(key, f):
         return False
     rest = key[len(mod) + 2:].split("::")
     return len(rest) <= 2
+
+
+TINY_BLOCKS = 6
+FLATTEN_TINY = bool(os.environ.get("VERIF_FLATTEN_TINY"))     # work in progress: canonical flattening of tiny private helpers
+
+
+def _is_tiny(f):
+    """A closure-free function of at most TINY_BLOCKS non-cleanup blocks: one-line predicates, accessors, forwarders."""
+    body = f["body"]
+    n = 0
+    for blk in body["blocks"]:
+        if blk["cleanup"]:
+            continue
+        n += 1
+        for st in blk["stmts"]:
+            if st.get("k") == "=" and st["rv"].get("k") == "agg" and st["rv"].get("closure"):
+                return False
+    return n <= TINY_BLOCKS
 
 
 def _remap_place(p, loff):
@@ -309,6 +504,225 @@ def _inline_at(F, b, G):
     return boff
 
 
+# ---------------------------------------------------------------------------------------------------------------------
+# Desugaring of std combinators whose behaviour is a `match` around a closure call.  `opt.map(f)`, `opt.and_then(f)`,
+# `opt.map_or(d, f)`, `opt.is_some_and(p)`, `opt.is_none_or(p)`, `opt.filter(p)`, `opt.unwrap_or_else(f)`, `res.map(f)`,
+# `res.map_err(f)` are rewritten into the switch on the discriminant plus the closure's MIR, so that a guard written as
+# `x.map(|o| o.object()) == Some(me)`, as `x.is_some_and(|o| o.object() == me)` or as `match x { Some(o) => .., None => .. }`
+# reaches the rules in one shape.  The closure itself is left as a stub.
+OPT = "std::option::Option"
+RES = "std::result::Result"
+COMBINATORS = {
+    # path: (enum, matched variant, closure argument index, what the matched arm yields, what the other arm yields)
+    "std::option::Option::<T>::map": (OPT, "Some", 1, ("wrap", "Some"), ("unit", "None")),
+    "std::option::Option::<T>::and_then": (OPT, "Some", 1, ("ret",), ("unit", "None")),
+    "std::option::Option::<T>::map_or": (OPT, "Some", 2, ("ret",), ("arg", 1)),
+    "std::option::Option::<T>::is_some_and": (OPT, "Some", 1, ("ret",), ("bool", 0)),
+    "std::option::Option::<T>::is_none_or": (OPT, "Some", 1, ("ret",), ("bool", 1)),
+    "std::option::Option::<T>::unwrap_or_else": (OPT, "None", 1, ("ret",), ("payload",)),
+    "std::option::Option::<T>::filter": (OPT, "Some", 1, ("filter",), ("unit", "None")),
+    "std::result::Result::<T, E>::map": (RES, "Ok", 1, ("wrap", "Ok"), ("rewrap", "Err")),
+    "std::result::Result::<T, E>::map_err": (RES, "Err", 1, ("wrap", "Err"), ("rewrap", "Ok")),
+}
+VARIANTS = {OPT: [[0, "None"], [1, "Some"]], RES: [[0, "Ok"], [1, "Err"]]}
+MAX_CLOSURE_BLOCKS = 60
+
+
+def _single_def_stmt(body, l):
+    found = None
+    for blk in body["blocks"]:
+        for st in blk["stmts"]:
+            if st.get("k") == "=" and st["lhs"]["l"] == l and not st["lhs"]["p"]:
+                if found is not None:
+                    return None
+                found = st
+        t = blk["term"]
+        if t["k"] == "call" and t["dest"]["l"] == l and not t["dest"]["p"]:
+            return None
+    return found
+
+
+def _closure_of_operand(body, op):
+    """(closure key, local holding the closure value) if `op` moves/copies a local whose only definition builds a closure."""
+    p = op.get("m") or op.get("c")
+    if not p or p["p"]:
+        return None, None
+    st = _single_def_stmt(body, p["l"])
+    if st is None:
+        return None, None
+    rv = st["rv"]
+    if rv.get("k") == "agg" and rv.get("closure"):
+        return rv["closure"], p["l"]
+    if rv.get("k") == "use":
+        return _closure_of_operand(body, rv["op"])
+    return None, None
+
+
+def _payload_place(l, enum, variant, ty):
+    return {"l": l, "p": [{"dc": variant}, {"i": 0, "f": "0", "a": enum, "v": variant, "ty": ty}]}
+
+
+def desugar_combinators(j):
+    fns = j["fns"]
+    insts = j["instances"]
+    by_def = defaultdict(list)
+    for i in insts:
+        by_def[i["def"]].append(i)
+    done = defaultdict(list)
+    for fk in list(fns.keys()):
+        F = fns[fk]
+        fb = F["body"]
+        b = -1
+        while b + 1 < len(fb["blocks"]) and len(fb["blocks"]) < 4000:
+            b += 1                      # blocks appended by a desugaring are visited too (nested combinators)
+            blk = fb["blocks"][b]
+            t = blk["term"]
+            if t["k"] != "call" or "k" not in t["func"] or t["func"]["k"].get("fn") not in COMBINATORS:
+                continue
+            if not isinstance(t.get("target"), int) or blk["cleanup"]:
+                continue
+            path = t["func"]["k"]["fn"]
+            enum, mvar, cidx, myield, oyield = COMBINATORS[path]
+            if cidx >= len(t["args"]):
+                continue
+            ck, cl = _closure_of_operand(fb, t["args"][cidx])
+            if not ck or ck not in fns or fns[ck].get("stub"):
+                continue
+            C = fns[ck]
+            cb = C["body"]
+            if len(cb["blocks"]) > MAX_CLOSURE_BLOCKS or cb["arg_count"] not in (1, 2):
+                continue
+            if any(x["term"]["k"] in ("yield", "asm", "tailcall") for x in cb["blocks"]):
+                continue
+            # every instance of the caller must know the closure instance the combinator invokes
+            recs = []
+            ok = True
+            for ci in by_def.get(fk, []):
+                c = ci["calls"].get(str(b))
+                fa = [x for x in (c or {}).get("fnargs", []) if "inst" in x]
+                if not c or len(fa) != 1 or insts[fa[0]["inst"]]["def"] != ck:
+                    ok = False
+                    break
+                recs.append((ci, insts[fa[0]["inst"]]))
+            if not ok:
+                continue
+            ln = t.get("ln")
+            other = [v for (_, v) in VARIANTS[enum] if v != mvar][0]
+            mval = [d for (d, v) in VARIANTS[enum] if v == mvar][0]
+            oval = [d for (d, v) in VARIANTS[enum] if v == other][0]
+            unwind_to = t.get("unwind") if isinstance(t.get("unwind"), int) else None
+            loff = len(fb["locals"])
+            poff = len(F.get("promoted", []))
+            # new locals: [subject copy, discriminant] + the closure's locals
+            subj, disc = loff, loff + 1
+            fb["locals"].append({"ty": enum + "<..>"})
+            fb["locals"].append({"ty": "isize"})
+            coff = len(fb["locals"])
+            fb["locals"].extend(copy.deepcopy(cb["locals"]))
+            F.setdefault("promoted", []).extend(copy.deepcopy(C.get("promoted", [])))
+            env_ty = cb["locals"][1]["ty"]
+            arg_ty = cb["locals"][2]["ty"] if cb["arg_count"] == 2 else "?"
+            # block layout: [matched arm entry, other arm, join] + closure blocks
+            b_match = len(fb["blocks"])
+            b_other = b_match + 1
+            b_join = b_match + 2
+            boff = b_match + 3
+
+            def S(lhs, rv):
+                st = {"k": "=", "lhs": lhs, "rv": rv}
+                if ln is not None:
+                    st["ln"] = ln
+                return st
+
+            def L(l):
+                return {"l": l, "p": []}
+            blk["stmts"].append(S(L(subj), {"k": "use", "op": t["args"][0]}))
+            blk["stmts"].append(S(L(disc), {"k": "discr", "place": L(subj), "adt": enum, "variants": VARIANTS[enum]}))
+            blk["term"] = {"k": "switch", "op": {"m": L(disc)}, "opty": "isize", "targets": [[mval, b_match], [oval, b_other]],
+                           "otherwise": b_other}
+            if ln is not None:
+                blk["term"]["ln"] = ln
+            # matched arm: bind the closure environment and argument, run the closure
+            mst = []
+            if env_ty.startswith("&mut "):
+                mst.append(S(L(coff + 1), {"k": "ref", "mut": True, "place": L(cl)}))
+            elif env_ty.startswith("&"):
+                mst.append(S(L(coff + 1), {"k": "ref", "mut": False, "place": L(cl)}))
+            else:
+                mst.append(S(L(coff + 1), {"k": "use", "op": {"m": L(cl)}}))
+            if cb["arg_count"] == 2 and myield[0] == "filter":
+                mst.append(S(L(coff + 2), {"k": "ref", "mut": False, "place": _payload_place(subj, enum, mvar, arg_ty)}))
+            elif cb["arg_count"] == 2:
+                mst.append(S(L(coff + 2), {"k": "use", "op": {"m": _payload_place(subj, enum, mvar, arg_ty)}}))
+            fb["blocks"].append({"cleanup": False, "stmts": mst, "term": {"k": "goto", "target": boff}})
+            # other arm
+            ost = []
+            if oyield[0] == "unit":
+                ost.append(S(copy.deepcopy(t["dest"]), {"k": "agg", "agg": "adt", "adt": enum, "variant": oyield[1], "field_names": [], "ops": []}))
+            elif oyield[0] == "arg":
+                ost.append(S(copy.deepcopy(t["dest"]), {"k": "use", "op": t["args"][oyield[1]]}))
+            elif oyield[0] == "bool":
+                ost.append(S(copy.deepcopy(t["dest"]), {"k": "use", "op": {"k": {"ty": "bool", "int": oyield[1], "text": "true" if oyield[1] else "false"}}}))
+            elif oyield[0] == "payload":
+                ost.append(S(copy.deepcopy(t["dest"]), {"k": "use", "op": {"m": _payload_place(subj, enum, other, "?")}}))
+            elif oyield[0] == "rewrap":
+                ost.append(S(copy.deepcopy(t["dest"]), {"k": "agg", "agg": "adt", "adt": enum, "variant": oyield[1], "field_names": ["0"],
+                                                        "ops": [{"m": _payload_place(subj, enum, other, "?")}]}))
+            fb["blocks"].append({"cleanup": False, "stmts": ost, "term": {"k": "goto", "target": t["target"]}})
+            # join after the closure returned into local coff+0
+            jst = []
+            jterm = {"k": "goto", "target": t["target"]}
+            if myield[0] == "ret":
+                jst.append(S(copy.deepcopy(t["dest"]), {"k": "use", "op": {"m": L(coff)}}))
+            elif myield[0] == "filter":
+                # keep the value iff the predicate held: the `false` edge goes to the arm that yields None
+                jst.append(S(copy.deepcopy(t["dest"]), {"k": "use", "op": {"m": L(subj)}}))
+                jterm = {"k": "switch", "op": {"c": L(coff)}, "opty": "bool", "targets": [[0, b_other]], "otherwise": t["target"]}
+            else:
+                jst.append(S(copy.deepcopy(t["dest"]), {"k": "agg", "agg": "adt", "adt": enum, "variant": myield[1], "field_names": ["0"],
+                                                        "ops": [{"m": L(coff)}]}))
+            fb["blocks"].append({"cleanup": False, "stmts": jst, "term": jterm})
+            # the closure's blocks
+            for gblk in cb["blocks"]:
+                nbk = copy.deepcopy(gblk)
+                _remap_locals(nbk["stmts"], coff)
+                _remap_locals(nbk["term"], coff)
+                if poff:
+                    _remap_promoted(nbk, poff)
+                tt = nbk["term"]
+                if tt["k"] == "return":
+                    nbk["term"] = {"k": "goto", "target": b_join}
+                elif tt["k"] == "resume":
+                    if unwind_to is not None:
+                        nbk["term"] = {"k": "goto", "target": unwind_to}
+                else:
+                    _remap_targets(tt, boff, unwind_to)
+                fb["blocks"].append(nbk)
+            for (ci, gi) in recs:
+                ci["calls"].pop(str(b), None)
+                for k, v in gi["calls"].items():
+                    ci["calls"][str(boff + int(k))] = v
+                for k, v in gi["drops"].items():
+                    ci["drops"][str(boff + int(k))] = v
+                gi["calls"] = {}
+                gi["drops"] = {}
+            # closures defined inside the desugared closure now belong to the enclosing function
+            for k2, f2 in fns.items():
+                if f2.get("parent_fn") == ck:
+                    f2["parent_fn"] = fk
+            C["body"] = {"arg_count": cb["arg_count"], "locals": cb["locals"], "upvar_names": [],
+                         "blocks": [{"cleanup": False, "stmts": [], "term": {"k": "unreachable"}}]}
+            C["promoted"] = []
+            C["stub"] = True
+            for gi2 in by_def.get(ck, []):
+                gi2["calls"] = {}
+                gi2["drops"] = {}
+            done[path.split("::")[-1]].append(fk)
+            REPARENT[ck] = fk
+    j["desugared"] = {k: sorted(set(v)) for k, v in done.items()}
+    return j["desugared"]
+
+
 def inline_helpers(j, log=None):
     """Rewrite the facts in place.  Returns {helper key: [caller keys]}."""
     words = spec_words()
@@ -343,11 +757,14 @@ def inline_helpers(j, log=None):
             if f["kind"] not in ("Fn", "AssocFn") or f.get("impl_trait") or f.get("in_trait") or f.get("stub"):
                 continue
             name = g.split("::")[-1]
-            if not _private_to_module(g, f):
+            forced = g in FORCE_INLINE
+            if not forced and not _private_to_module(g, f):
                 continue
-            if name in words and (g in ref or not ref):
-                continue            # a function the rules may anchor on
-            if ref and g not in ref and g.rsplit("::", 1)[0] in vanished and len(calls.get(g, [])) > 1:
+            tiny = FLATTEN_TINY and _is_tiny(f)
+            if not forced and not tiny and name in words and (g in ref or not ref):
+                continue            # a function the rules may anchor on (tiny closure-free helpers are always flattened:
+                #                     the rules are written against the flattened form, so inlining them by hand changes nothing)
+            if not forced and ref and g not in ref and g.rsplit("::", 1)[0] in vanished and len(calls.get(g, [])) > 1:
                 continue            # several call sites + a reference function vanished from the same impl: possibly a rename the
                 #                     signature test could not resolve; leave it for the rules to identify structurally
             sites = calls.get(g, [])
@@ -399,10 +816,44 @@ def inline_helpers(j, log=None):
                          "blocks": [{"cleanup": False, "stmts": [], "term": {"k": "unreachable"}}]}
             G["promoted"] = []
             G["stub"] = True
+            if g in FORCE_INLINE:
+                G["deleted"] = True
             for gi in by_def.get(g, []):
                 gi["calls"] = {}
                 gi["drops"] = {}
+    gone = [k for k, f in fns.items() if f.get("deleted")]
+    if gone:
+        # simulation of "helper inlined and deleted": its instances are parked on a dummy definition nobody calls
+        fns["<deleted>"] = {"kind": "Fn", "file": "", "line": 0, "attrs": [], "promoted": [],
+                            "body": {"arg_count": 0, "locals": [{"ty": "()"}], "upvar_names": [],
+                                     "blocks": [{"cleanup": False, "stmts": [], "term": {"k": "unreachable"}}]}}
+        for g in gone:
+            for gi in by_def.get(g, []):
+                gi["def"] = "<deleted>"
+                gi["identity"] = False
+            del fns[g]
     j["inlined"] = done
     for g, callers in done.items():
         REPARENT[g] = callers[0]
     return done
+
+
+def force_candidates(prog):
+    """Functions a maintainer could plausibly inline away: not public API, small, 1-3 direct call sites, not recursive."""
+    out = []
+    calls = defaultdict(int)
+    for k, f in prog.fns.items():
+        for b in range(f.body.n):
+            t = f.body.term(b)
+            if t["k"] == "call" and "k" in t["func"] and "fn" in t["func"]["k"]:
+                calls[t["func"]["k"]["fn"]] += 1
+    for k, f in prog.fns.items():
+        j = f.j
+        if f.kind not in ("Fn", "AssocFn") or j.get("impl_trait") or j.get("in_trait") or j.get("stub"):
+            continue
+        if not _private_to_module(k, j):
+            continue            # layer APIs (pub(crate) and wider) are the architecture; private helpers are what gets inlined
+        if not (1 <= calls.get(k, 0) <= 3) or f.body.n > 40:
+            continue
+        out.append(k)
+    return sorted(out)
